@@ -5,7 +5,7 @@ import ast
 
 import z3
 
-from .core import FP32, RNE, U, BoundMethod, Closure, Env, Obj, PyFn, PyObj, PyRaise, RepoClass, SSeq, Unsupported, is_z3, to_sort
+from .core import FP32, RNE, U, BoundMethod, Closure, Env, Obj, PropertyDef, PyFn, PyObj, PyRaise, RepoClass, SSeq, Unsupported, is_z3, to_sort
 from .interp import Interp, LoopSpec, PathDone, get_module
 from .unit import unit
 
